@@ -5,7 +5,7 @@
 
      aes/base.py   key_schedule, inv_key_schedule, key_expansion, _expand_forward, _expand_backward
      des/base.py   key_schedule, get_master_key, _find_possible_keys, _convert_hypothesis_bits_into_keys *)
-From Coq Require Import NArith List Bool Arith Lia Uint63.
+From Coq Require Import NArith List Bool Arith Lia.
 From ScaredV Require Import Generated.KeySchedTables Spec.Fips197 Spec.DesKeySpec Run.Compare.
 Import ListNotations.
 Open Scope N_scope.
@@ -132,8 +132,9 @@ Definition des_ks_m (key : list N) (last : option nat) : option (list (list N)) 
   if negb (is_bytes key) || negb (length key =? 8)%nat || (DES_LAST_ROUND <? l)%nat then None
   else Some (map (round_key_m (key_bits_m key)) (firstn (S l) DES_RKBI)).
 
-(* a DES key: 8 bytes *)
+(* a DES key, a DES block: 8 bytes *)
 Definition wf_des_key (key : list N) : Prop := length key = 8%nat /\ Forall (fun b => b < 256) key.
+Definition wf_des_block (b : list N) : Prop := length b = 8%nat /\ Forall (fun x => x < 256) b.
 
 (* ================================================================== DES: master key from one round key *)
 (* l[i] = v on a list *)
@@ -217,18 +218,10 @@ Section GetMasterKey.
 End GetMasterKey.
 
 (* ================================================================== correspondence check *)
-(* Transport of byte strings: the harness writes every byte string as a list of primitive 63-bit integers holding 7 bytes
-   each, most significant byte first, the last one padded with zero bytes on the right (primitive literals parse fast; they
-   are used for nothing else).  [unpack n cs] = the first n bytes. *)
-Fixpoint n_of_int (bits : nat) (i : int) : N :=
-  match bits with
-  | O => 0
-  | S b => (if (i land 1 =? 0)%uint63 then 0 else 1) + 2 * n_of_int b (i >> 1)%uint63
-  end.
-Definition chunk_bytes (c : int) : list N :=
-  map (fun k => n_of_int 8 ((c >> k) land 255)%uint63) [48; 40; 32; 24; 16; 8; 0]%uint63.
-Definition unpack (n : nat) (cs : list int) : list N := firstn n (flat_map chunk_bytes cs).
-Definition packed := list int.
+(* Transport of byte strings: the harness writes every byte string as the list of its bytes; [unpack n l] = the first n of
+   them (the shapes are compared separately). *)
+Definition packed := list N.
+Definition unpack (n : nat) (l : packed) : list N := firstn n l.
 
 (* big-endian value of a byte string *)
 Definition pack (l : list N) : N := fold_left (fun acc b => 256 * acc + b) l 0.
